@@ -1,11 +1,9 @@
 import FsutilModel.Model.CopyB
 import FsutilModel.ValidatorBridge1
+import FsutilModel.Lemmas.C14
 /-! # C14 — copy stays inside its roots: the chroot-style resolver -/
 namespace Fsm.C14
 open FL C
-
-/-- a component that can be part of a resolved location -/
-def PlainComp (c : Path) : Prop := c ≠ [] ∧ c ≠ [dot] ∧ c ≠ dd
 
 /-- The chroot-style resolver ("as if each root were /") never leaves the root: whatever symlinks the
 tree contains (absolute, `..`-laden, dangling, looping) and whatever the path argument is, the location
@@ -52,42 +50,6 @@ theorem resolve_stays_inside (l : List Ent) : ∀ (fuel : Nat) (st : List (Path 
 /-- non-vacuity: a link `a -> ../../outside` below the root resolves to `outside` INSIDE the root -/
 example : (resolve [⟨[97], false, some [46, 46, 47, 46, 46, 47, 111]⟩] [97]).2 = some [111] := by decide
 
-theorem cleanComps_rooted (cs : List Path) : ∀ acc : List Path, (∀ c ∈ acc, PlainC' c ∧ sep ∉ c) → (∀ c ∈ cs, sep ∉ c) →
-    ∀ c ∈ cleanComps true acc cs, PlainC' c ∧ sep ∉ c := by
-  induction cs with
-  | nil => intro acc h _ c hc; simp [cleanComps] at hc; exact h c hc
-  | cons x xs ih =>
-    intro acc hacc hs
-    have hsx := hs x (by simp)
-    have hsxs : ∀ c ∈ xs, sep ∉ c := fun c hc => hs c (by simp [hc])
-    simp only [cleanComps]
-    by_cases h1 : x = [] ∨ x = [dot]
-    · simp only [h1, if_true]; exact ih acc hacc hsxs
-    · simp only [h1, if_false]
-      by_cases h2 : x = dd
-      · simp only [h2, if_true]
-        cases acc with
-        | nil => simp only [if_true]; exact ih [] (by simp) hsxs
-        | cons top rest =>
-          simp only []
-          have htop := hacc top (by simp)
-          have hne : top ≠ dd := htop.1.2.2
-          simp only [hne, if_false]
-          exact ih rest (fun c hc => hacc c (by simp [hc])) hsxs
-      · simp only [h2, if_false]
-        refine ih (x :: acc) ?_ hsxs
-        intro c hc
-        simp only [List.mem_cons] at hc
-        rcases hc with rfl | hc
-        · exact ⟨⟨fun e => h1 (Or.inl e), fun e => h1 (Or.inr e), h2⟩, hsx⟩
-        · exact hacc c hc
-
-/-- Clean of a rooted path is "/" followed by plain components -/
-theorem clean_rooted (a : Path) : ∃ cs : List Path, clean (sep :: a) = sep :: joinSep cs ∧ ∀ c ∈ cs, PlainC' c ∧ sep ∉ c := by
-  refine ⟨cleanComps true [] (comps (sep :: a)), ?_, ?_⟩
-  · simp [clean, isAbs]
-  · exact cleanComps_rooted _ [] (by simp) (comps_all_sepfree _)
-
 /-- **The landing name of a copy is a single plain component (or nothing)**: whatever the source argument is (`sub/..`,
 `..`, `a//b/`, absolute or not), the name joined below an existing destination directory is empty or a non-empty
 separator-free component different from "." and ".." — the copy lands on a direct child of the destination, never above it. -/
@@ -128,7 +90,6 @@ theorem landName_plain (a : Path) :
     have hdot : ¬ (b = [dot]) := hb.1.2.1
     simp only [h47, hdot, decide_false, Bool.or_self, Bool.false_eq_true, if_false]
     exact hb
-
 
 /-- F23 witness (kernel-checked): the landing name as the code computed it was `..` for the argument `a/..` -/
 theorem landName_unrepaired_dotdot : landName false [97, 47, 46, 46] = dd := by decide
